@@ -281,6 +281,14 @@ func c17Defs() []c17Def {
 			vsched.Join(c)
 			x.reg.CleanupConnection("conn-A")
 		}},
+		{Name: "abandon-connection-ro", Run: func(x *c17Ctx) {
+			// an abandoned read-only transaction holds the lock shared: its connection's cleanup has to end it too
+			b := x.client("B", true, func(id string, tx transaction.Transaction) { tx.Get([]byte("a")) })
+			c := vsched.GoNamed("C", func() { x.reg.CleanupConnection("conn-B") })
+			vsched.Join(b)
+			vsched.Join(c)
+			x.reg.CleanupConnection("conn-B")
+		}},
 		{Name: "shutdown", Run: func(x *c17Ctx) {
 			a := x.client("A", false, func(id string, tx transaction.Transaction) { tx.Put([]byte("a"), []byte("A")) })
 			b := x.client("B", true, func(id string, tx transaction.Transaction) { tx.Get([]byte("a")) })
@@ -352,7 +360,7 @@ func c17Defs() []c17Def {
 // c17RaceScenario: scenarios whose free run needs no 10 s / 30 s real-time wait.
 func c17RaceScenario(name string) bool {
 	switch name {
-	case "ro-begins", "commit-vs-rollback", "cleanup-vs-commit", "abandon-connection":
+	case "ro-begins", "commit-vs-rollback", "cleanup-vs-commit", "abandon-connection", "abandon-connection-ro":
 		return true
 	}
 	return false
@@ -435,7 +443,7 @@ func init() {
 		ID:    "C17",
 		Level: "model_checking",
 		Rule: "(A) every sequence of <=4 (5 thorough) calls {get, put, delete, scan, commit, rollback} on one read-write and one read-only transaction: the first successful finish takes effect once, every later call returns the closed error and changes nothing, the database is free afterwards (probe begin) and shows exactly the committed effect. " +
-			"(B) stateless exploration of 11 registry scenarios (idle cleanup also under a steady stream of cleanup calls 2 s apart) (graceful shutdown also with a context that is already cancelled) (2-3 threads; two simultaneous read-only begins followed by a writer is the ninth): begin waiting for the lock while the 10 s begin timeout fires as an environment event (every ready select case explored), abandonment followed by idle cleanup (direct and through the cleanup ticker), connection cleanup, graceful shutdown, commit racing rollback, stale cleanup racing commit; all interleavings up to the deviation bound (2 quick, 3 thorough) with happens-before caching. Oracle: after every terminal state a probe BeginTransaction(false) is granted (otherwise the scheduler reports the deadlock with the blocked sites), a write is visible iff its commit reported success, commit and rollback never both succeed. (C) the scenarios without long real-time waits run free in a -race build (8 / 100 iterations each): any race report, panic or hang is a violation - the exploration interleaves at synchronisation operations only, which is sufficient only if there is no unsynchronised access. Non-trivial = executions with a cross-thread conflict",
+			"(B) stateless exploration of 12 registry scenarios (connection cleanup of an abandoned read-write and of an abandoned read-only transaction) (idle cleanup also under a steady stream of cleanup calls 2 s apart) (graceful shutdown also with a context that is already cancelled) (2-3 threads; two simultaneous read-only begins followed by a writer is the ninth): begin waiting for the lock while the 10 s begin timeout fires as an environment event (every ready select case explored), abandonment followed by idle cleanup (direct and through the cleanup ticker), connection cleanup, graceful shutdown, commit racing rollback, stale cleanup racing commit; all interleavings up to the deviation bound (2 quick, 3 thorough) with happens-before caching. Oracle: after every terminal state a probe BeginTransaction(false) is granted (otherwise the scheduler reports the deadlock with the blocked sites), a write is visible iff its commit reported success, commit and rollback never both succeed. (C) the scenarios without long real-time waits run free in a -race build (8 / 100 iterations each): any race report, panic or hang is a violation - the exploration interleaves at synchronisation operations only, which is sufficient only if there is no unsynchronised access. Non-trivial = executions with a cross-thread conflict",
 		Assumptions: []string{"virtual time: the 10 s begin timeout, the 30 s idle limit and the cleanup ticker are environment events / clock jumps", "a client never requests a second transaction while holding one (excluded by the statement)"},
 		Units: func(tier string) []string {
 			us := []string{"seq/rw", "seq/ro"}
